@@ -274,7 +274,7 @@ func check(c conf, r *vm.Result) string {
 	if len(msgs) == 0 {
 		return ""
 	}
-	return msgs[0] + "\n" + strings.Join(msgs, "\n") + "\n" + r.ObsString()
+	return e1.Multi(msgs, r.ObsString())
 }
 
 // ---- request id generator -------------------------------------------------------
